@@ -411,6 +411,15 @@ def run_value(case, rec):
         if k.endswith("_pd_type"):
             rec.bucket("dist:" + pars[k])
     shape = (name, dim, sorted((k[:-8], pars[k]) for k in pars if k.endswith("_pd_type")), lengths, cmode, nq)
+    # the same kernel object again with another cutoff: the mean is over the points that cutoff retains
+    cutoff2 = 0.0 if cutoff > 0 else 1e-3
+    I2 = direct_model.call_kernel(kernel, dict(pars), cutoff=cutoff2)
+    ref2, _ = oracle.intensity(mesh, qo, dim, cutoff2)
+    ok2 = core.close(I2, ref2, 1e-10, 1e-12*scale_I)
+    rec.check("I_equals_weighted_mean", ok2,
+              None if ok2 else dict(ctx, note="second evaluation on the same kernel with cutoff %g" % cutoff2, observed=I2,
+                                    expected=ref2, max_rel_err=core.maxrel(I2, ref2, 1e-12*scale_I)),
+              key=trunc_key(meta, dict(oracle.stats)))
     # one more evaluation on the same kernel object with another scale and a monodisperse mesh, then: what was
     # returned earlier still holds the values it was returned with
     try:
